@@ -1027,6 +1027,21 @@ func illegalCharInjection(run *core.Run, n int) {
 				}
 			}
 		}
+		if i%9 == 4 {
+			// a lone carriage return (or form feed) INSIDE a word: it is a line break for the grammar, so the word falls
+			// apart and the text is no model any more - it must not be glued together again
+			var spots []int
+			for q := 1; q < len(txt); q++ {
+				if isWordByte(txt[q-1]) && isWordByte(txt[q]) && !(lay.Long > 0 && q < p) {
+					spots = append(spots, q)
+				}
+			}
+			if len(spots) > 0 {
+				p = spots[r.Intn(len(spots))]
+				ch = []string{"\r", "\r", "\f"}[r.Intn(3)]
+				run.Count("line_breaks_injected_inside_a_word", 1)
+			}
+		}
 		mut := txt[:p] + ch + txt[p:]
 		m, err := transformer.TransformDSLToProto(mut)
 		run.Eval(1)
@@ -1035,6 +1050,10 @@ func illegalCharInjection(run *core.Run, n int) {
 			run.Violation("unlexable-character-accepted", &core.Case{Kind: "c08:dsl-literal", Text: mut}, "a syntax error", fmt.Sprintf("accepted; character %q at byte %d", ch, p))
 		}
 	})
+}
+
+func isWordByte(b byte) bool {
+	return b == '_' || b >= 'a' && b <= 'z' || b >= 'A' && b <= 'Z' || b >= '0' && b <= '9'
 }
 
 // illegalCharInModuleFiles: the same through the modular entry points - one of several module files (unique type
